@@ -98,7 +98,33 @@ static int run(int32 ver, psCipher16_t cipher, const char *label, int craftGcm)
             "fatal alert %d; data submitted after it is never delivered\n", label, rc2->alertDesc);
         violation = 1;
     }
+    else
+    {
+        printf("OK: %s: empty record delivered as 0 bytes, stream 'AB' complete\n", label);
+    }
     return violation;
+}
+
+/* Control: an empty record that was modified in transit is still fatal */
+static int tampered(int32 ver, psCipher16_t cipher, const char *label, int craftGcm)
+{
+    peer_t cli, svr;
+    unsigned char *w;
+    int n;
+    feed_t *r = calloc(1, sizeof(*r));
+
+    if (setupPair(&cli, &svr, ver, cipher, 0) < 0) return 1;
+    n = craftGcm ? craftGcm12(&cli, NULL, 0, &w) : sendBlank(&cli, &w);
+    if (n <= 0) return 0;
+    w[n - 1] ^= 0x40;
+    feedBytes(&svr, w, n, r);
+    if (!(svr.ssl->flags & SSL_FLAGS_ERROR) || r->nAppData != 0)
+    {
+        printf("VIOLATION: control %s: modified empty record not rejected (rc %d)\n", label, r->lastRc);
+        return 1;
+    }
+    printf("OK: control %s: modified empty record ends the session with a fatal alert\n", label);
+    return 0;
 }
 
 int main(void)
@@ -109,6 +135,9 @@ int main(void)
     b = run(SSL_FLAGS_TLS_1_3, 0x1303, "TLS1.3 CHACHA20-POLY1305", 0);
     c = run(SSL_FLAGS_TLS_1_2, 0x009c, "TLS1.2 AES-128-GCM (record built from the client's write keys)", 1);
     d = run(SSL_FLAGS_TLS_1_2, 0x003c, "TLS1.2 AES-128-CBC-SHA256 (contrast)", 0);
+    d |= tampered(SSL_FLAGS_TLS_1_3, 0x1301, "TLS1.3 AES-128-GCM", 0);
+    d |= tampered(SSL_FLAGS_TLS_1_3, 0x1303, "TLS1.3 CHACHA20-POLY1305", 0);
+    d |= tampered(SSL_FLAGS_TLS_1_2, 0x009c, "TLS1.2 AES-128-GCM", 1);
     printf("violations: tls13-gcm=%d tls13-chacha=%d tls12-gcm=%d tls12-cbc=%d\n", a, b, c, d);
     return (a > 0 || b > 0 || c > 0 || d > 0) ? 1 : 0;
 }
